@@ -229,6 +229,52 @@ def bundled_unit():
     return Unit("C12.bundled_events_mixed_magnitudes", h, bounds={"events": 2, "transitions_per_event": 2, "orders": "both"}, max_paths=5)
 
 
+def chained_unit():
+    """One event bundling two transitions that MEET in a state (Y -> Z and X -> Y fire together: Y's net change is 0), the
+    transitions listed in both orders, against the same processes as single-transition events with the same rate and as explicit
+    ODE terms.  Besides the ODE, the drift of the jump process, state-change matrix x event rates, must be that same right-hand
+    side for every event route (the matrix has to accumulate over the transitions of an event, in either order)."""
+    def h(c):
+        from pygom import SimulateOde, Transition, Event
+        from pygom.model import ode_utils
+        env = {s_: c.real("x_" + s_) for s_ in STATES}
+        env["t"] = c.real("t")
+        for p_ in PARAMS:
+            env[p_] = c.real("th_" + p_)
+        x = [env[s_] for s_ in STATES]
+        th = [env[p_] for p_ in PARAMS]
+        r = V("a") * V("X") * V("Y")
+        f_ref = [expr.ev(e, env) for e in (-1 * r, 0 * r, r)]
+
+        def mk(kind):
+            tl = [Transition(origin="Y", destination="Z", transition_type="T"), Transition(origin="X", destination="Y", transition_type="T")]
+            if kind == "reversed":
+                tl = tl[::-1]
+            if kind in ("listed", "reversed"):
+                return SimulateOde(state=list(STATES), param=list(PARAMS), event=[Event(rate="a*X*Y", transition_list=tl)])
+            if kind == "single":
+                return SimulateOde(state=list(STATES), param=list(PARAMS), event=[Event(rate="a*X*Y", transition_list=[t_]) for t_ in tl])
+            return SimulateOde(state=list(STATES), param=list(PARAMS),
+                               ode=[Transition(origin="X", equation="-a*X*Y", transition_type="ODE"), Transition(origin="Z", equation="a*X*Y", transition_type="ODE")])
+        for kind in ("listed", "reversed", "single", "ode"):
+            m = mk(kind)
+            m._SC = ode_utils.compileCode(backend="lambda")
+            m.parameters = th
+            eq = m.get_ode_eqn()
+            label = "[chained transitions in one event, %s]" % kind
+            c.prove(all_close([s2z.s2z(eq[i], env) for i in range(3)], f_ref, c), "%s get_ode_eqn == the process set's ODE" % label)
+            c.prove(all_close(m.ode(x, env["t"]), f_ref, c), "%s ode(x,t) identical" % label)
+            if kind != "ode":
+                Vm = np.asarray(m.vMat(x, env["t"]), dtype=object)
+                a = np.asarray(m.eventRateVector(x, env["t"]), dtype=object).ravel()
+                ok_shape = Vm.shape == (3, len(a))
+                c.prove(ok_shape, "%s state-change matrix has shape (states, events)" % label)
+                if ok_shape:
+                    drift = [sum(Vm[i, j] * a[j] for j in range(len(a))) for i in range(3)]
+                    c.prove(all_close(drift, f_ref, c), "%s state-change matrix x rates == the process set's ODE" % label)
+    return Unit("C12.chained_transitions_in_one_event", h, bounds={"events": 1, "transitions_per_event": 2, "orders": "both"}, max_paths=5)
+
+
 def all_variants(routes_table=None):
     routes_table = routes_table or ROUTES
     out = []
@@ -251,7 +297,7 @@ class C12(Check):
                    "each other -- and the rate vector equal up to the ordering of events.  The vector-state range declaration ('y1:4') is "
                    "covered by C01's vector_states member.  One unit builds TWO models from the same Event/Transition objects (derived parameter of the same "
                    "name defined differently; first model evaluated first): each must be the model of its own definition; one unit bundles transitions with mixed "
-                   "magnitudes into one event, in both orders, against single-transition events and explicit ODE terms.")
+                   "magnitudes into one event, in both orders, against single-transition events and explicit ODE terms; one unit bundles two transitions that meet in a state, in both orders, and also proves state-change matrix x rates equal to that right-hand side.")
     assumptions = ["legacy transition=/birth_death= routes carry magnitude 1 (the legacy converters rebuild the Transition without it); non-unit magnitudes (2, symbolic g, 3) are checked on every route that carries a magnitude: Event objects, rate-carrying Transitions given to event=/add_event, hand-written ODE terms", "lambdify back-end"]
 
     def units(self, tier, seed):
@@ -266,6 +312,7 @@ class C12(Check):
         us += [variant_unit(ch, i, mag=True) for i, ch in enumerate(chunks(vm, 16 if tier == "quick" else 48))]
         us.append(shared_objects_unit())
         us.append(bundled_unit())
+        us.append(chained_unit())
         return us
 
     def extra(self, tier, seed):
